@@ -4,7 +4,21 @@ package main
 import (
 	"runtime"
 	"time"
+
+	"github.com/gocql/gocql"
 )
+
+// createSession: NewSession needs its first connection within ConnectTimeout; on a starved machine that can fail
+// without any fault of the driver, so it is tried a few times (the scenario proper starts afterwards).
+func createSession(cfg *gocql.ClusterConfig) (s *gocql.Session, err error) {
+	for try := 0; try < 5; try++ {
+		if s, err = cfg.CreateSession(); err == nil {
+			return s, nil
+		}
+		time.Sleep(20 * time.Millisecond)
+	}
+	return nil, err
+}
 
 // patient polls cond until it holds. It gives up only when BOTH the watchdog time has passed AND the loop itself
 // has been awake for a minimum number of polls (limit / 4 ms polls of >= 1 ms each): time during which the whole
